@@ -6,6 +6,21 @@ import os
 HERE = os.path.dirname(os.path.dirname(os.path.abspath(__file__)))
 
 CLAIMS = {
+    "C03": dict(
+        text="Static structural rules on the neighbour selection plus ownership facts from the abstract traces: "
+             "inclusive radius comparison; argpartition pivot k-1 and slice k; cdist operands (all stored "
+             "contexts, the row as 1 x d, the configured metric) flattened; history replaced by fit and appended "
+             "old-then-new by partial_fit, written by nobody else; the per-row policy is a fresh copy trained with "
+             "fit on decisions/rewards/contexts under one selector; on the empty-neighbourhood path every arm's "
+             "expectation is NaN on every path (constructor, add_arm, never written by training), the guard is an "
+             "emptiness test of the selection and predict draws choice(len(arms), p=...) from the row generator. "
+             "Decides neighbourhood membership structure, not distances as numbers. Found and guards the repaired "
+             "add_arm 0-instead-of-NaN defect.",
+        note="Trusted: cdist / argpartition / where semantics; numpy choice never returns a zero-probability "
+             "index; tie handling inside argpartition is not decided.",
+        technique="AST idiom rules after local inlining (accepted forms enumerated) + ownership and "
+                  "neutral-value facts from abstract-interpretation traces",
+        ref="DESIGN.md section 3, C03"),
     "C16": dict(
         text="Static structural rules on simulator.py: the three window loops (offline chunks, online batches, "
              "online chunks of a batch) form an ordered exact cover (start affine in the counter or advanced by "
